@@ -50,4 +50,10 @@ def cClz32 (n : Int) : Int := 31 - (Nat.log2 n.toNat : Int)
     was `base + off` -/
 def shiftLog (off : Int) (l : List (Int × Int)) : List (Int × Int) := l.map (fun e => (off + e.1, e.2))
 
+/-- `while (c s) s = f s` with at most `fuel + 1` evaluations of the condition: `none` when the condition still holds
+    after `fuel` iterations (the translator's bound was too small — the equality theorems show this never happens) -/
+def cWhile {σ : Type} : Nat → (σ → Bool) → (σ → σ) → σ → Option σ
+  | 0, c, _, s => if c s then none else some s
+  | n + 1, c, f, s => if c s then cWhile n c f (f s) else some s
+
 end Draco.CInt
